@@ -239,6 +239,9 @@ func (e *Exec) zzIntrinsic(name string, args []Value) (Value, bool) {
 		w := int(t.S)
 		v := r.concretize(e, b.ZExt(t, 64), "zzConc")
 		return b.ConstU(w, uint64(v)), true
+	case "zzAsmCall":
+		e.asmCallIntrinsic(args)
+		return nil, true
 	case "zzSymbolic":
 		return b.Bool(true), true
 	case "zzAssume":
